@@ -313,7 +313,16 @@ func (p Path) InfeasibleByEval() bool {
 // is called for every instruction with the environment of that moment. It returns false when the
 // path is infeasible.
 func (p Path) WalkEval(visit func(bi int, in ssa.Instruction, e *miniEnv)) bool {
+	return p.WalkEvalSeeded(nil, visit)
+}
+
+// WalkEvalSeeded is WalkEval with some values (parameters) fixed beforehand: the path is replayed
+// for one concrete argument.
+func (p Path) WalkEvalSeeded(seed map[ssa.Value]int64, visit func(bi int, in ssa.Instruction, e *miniEnv)) bool {
 	e := &miniEnv{vals: map[ssa.Value]int64{}}
+	for k, v := range seed {
+		e.vals[k] = v
+	}
 	lens := lenFacts{}
 	for i, b := range p.Blocks {
 		// values (re)defined by this execution of b: branch facts recorded for an earlier
